@@ -994,6 +994,80 @@ func extractLocks(repo string, o *out) {
 			})
 		}
 		o.lines = append(o.lines, fmt.Sprintf("def detectorRefreshesUnvalidated : Nat := %d", plain))
+		// C07 (F33): "did the call start after the last response?" and the increment of the deadline-exceeded counter
+		// are one critical section of the subConnRef's mutex, and so is every other write of that counter (the reset
+		// by a response, the reset by the swap): in the whole package `deCalls` is written only between
+		// `<x>.mu.Lock()` and the matching unlock of the same receiver, never through sync/atomic; the function that
+		// increments it compares the call's start with `lastResp` in the same region
+		{
+			writes, unlocked, atomics, testAndCount := 0, 0, 0, 0
+			for _, f := range []string{"gcp_balancer.go", "gcp_picker.go"} {
+				af := parse(filepath.Join(repo, "grpcgcp", f))
+				for _, d := range af.Decls {
+					fd, isFn := d.(*ast.FuncDecl)
+					if !isFn || fd.Body == nil {
+						continue
+					}
+					held := map[string]bool{} // receiver spelling -> its mu is write-locked (deferred unlock: to the end)
+					hasCmp, hasInc := false, false
+					var walk func(n ast.Node) bool
+					walk = func(n ast.Node) bool {
+						switch x := n.(type) {
+						case *ast.DeferStmt:
+							return false
+						case *ast.FuncLit:
+							return false
+						case *ast.CallExpr:
+							if se, isSel := x.Fun.(*ast.SelectorExpr); isSel {
+								recv := exprString(se.X)
+								if strings.HasSuffix(recv, ".mu") {
+									switch se.Sel.Name {
+									case "Lock":
+										held[strings.TrimSuffix(recv, ".mu")] = true
+									case "Unlock":
+										held[strings.TrimSuffix(recv, ".mu")] = false
+									}
+								}
+								if rootIdent(se.X) == "atomic" && len(x.Args) > 0 && strings.Contains(exprString(x.Args[0]), "deCalls") {
+									atomics++
+								}
+								if se.Sel.Name == "Before" && len(x.Args) == 1 && strings.HasSuffix(exprString(x.Args[0]), ".lastResp") &&
+									held[strings.TrimSuffix(exprString(x.Args[0]), ".lastResp")] {
+									hasCmp = true
+								}
+							}
+						case *ast.AssignStmt:
+							for _, l := range x.Lhs {
+								if se, isSel := l.(*ast.SelectorExpr); isSel && se.Sel.Name == "deCalls" {
+									writes++
+									if !held[exprString(se.X)] {
+										unlocked++
+									}
+								}
+							}
+						case *ast.IncDecStmt:
+							if se, isSel := x.X.(*ast.SelectorExpr); isSel && se.Sel.Name == "deCalls" {
+								writes++
+								if !held[exprString(se.X)] {
+									unlocked++
+								} else if hasCmp {
+									hasInc = true
+								}
+							}
+						}
+						return true
+					}
+					ast.Inspect(fd.Body, walk)
+					if hasInc {
+						testAndCount++
+					}
+				}
+			}
+			o.lines = append(o.lines, fmt.Sprintf("def deCallsWrites : Nat := %d", writes))
+			o.lines = append(o.lines, fmt.Sprintf("def deCallsWritesOutsideLock : Nat := %d", unlocked))
+			o.lines = append(o.lines, fmt.Sprintf("def deCallsAtomicAccesses : Nat := %d", atomics))
+			o.lines = append(o.lines, fmt.Sprintf("def deCallsTestAndCountRegions : Nat := %d", testAndCount))
+		}
 		o.lines = append(o.lines, fmt.Sprintf("def balancerCallbacksHoldLock : Bool := %v", ok))
 	}
 	// round-robin cursor (C09): rrRefId is advanced only by `atomic.AddUint<bits>(&….rrRefId, 1)`, <bits> being
